@@ -48,7 +48,8 @@ def concretise(ranks, palette):
 
 
 def observe(job):
-  ranks, palette, pname = job
+  ranks, palette, pname = job[:3]
+  reuse = len(job) > 3 and job[3]
   P = pipelines()
   factory, strict, maps_inf, has_inv = P[pname]
   x = concretise(ranks, palette)
@@ -60,11 +61,16 @@ def observe(job):
     # a single distinct value is a degenerate input that only the pipelines promise to handle (documented shortcuts)
     return None
   x0 = x.copy()
-  rec = {'ranks': list(ranks), 'palette': palette, 'pipeline': pname, 'strict': bool(strict), 'maps_infeasible': bool(maps_inf), 'refused': False,
+  rec = {'ranks': list(ranks), 'palette': palette, 'pipeline': pname, 'reused': bool(reuse), 'strict': bool(strict), 'maps_infeasible': bool(maps_inf), 'refused': False,
          'inp': [fkey.key(v) for v in x0[:, 0]], 'out': [fkey.key(0.0)] * len(ranks), 'finite': [True] * len(ranks), 'untouched': True, 'shape_ok': True,
          'back_ok': True, 'is_pipeline': is_pipeline}
   try:
     w = factory()
+    if reuse:
+      # the designers keep ONE warper object and call it again as data arrives: first the two worst observed values ...
+      obs_idx = [i for i, r in enumerate(ranks) if r != 0]
+      two = sorted(obs_idx, key=lambda i: x[i, 0])[:2]
+      w.warp(x[two].copy())
     y = np.asarray(w.warp(x))
   except Exception as e:  # pylint: disable=broad-except
     rec['refused'] = True
@@ -107,11 +113,14 @@ def run(ctx):
             continue
         for pal in pals:
           jobs.append((ranks, pal, pname))
+          # ... then the whole array, on the same instance (pipelines and their stateful components)
+          if pname in ('default', 'warp_outliers', 'LogWarper', 'HalfRank') and sum(1 for r in ranks if r) >= 3 and max(ranks) >= 3:
+            jobs.append((ranks, pal, pname, True))
     with cf.ProcessPoolExecutor(max_workers=16, mp_context=multiprocessing.get_context('fork')) as ex:
       obs = [o for o in ex.map(observe, jobs, chunksize=64) if o is not None]
     path = os.path.join(d, 'w_obs.json')
     with open(path, 'w') as f:
-      json.dump([{k: v for k, v in o.items() if k not in ('error', 'palette')} for o in obs], f)
+      json.dump([{k: v for k, v in o.items() if k not in ('error', 'palette', 'reused')} for o in obs], f)
     cfg2 = os.path.join(d, 'W_judge.cfg')
     tlc.write_cfg(cfg2, spec='JSpec', constants={'Mode': 'judge', 'MaxN': max_n})
     res2 = tlc.must_ok(tlc.run_tlc('Warp', cfg2, d, workers=1, env={'TRACE_FILE': path}, timeout=3000), 'Warp/judge')
@@ -124,7 +133,7 @@ def run(ctx):
     counts[(o['pipeline'], v)] += 1
     if v not in ('ok',):
       has_missing = 0 in o['ranks']
-      ctx.violation({'via': 'warp', 'pipeline': o['pipeline'], 'verdict': v, 'with_missing_entries': has_missing},
+      ctx.violation({'via': 'warp', 'pipeline': o['pipeline'], 'verdict': v, 'with_missing_entries': has_missing, 'instance_reused': o['reused']},
                     {'kind': 'warp', 'pipeline': o['pipeline'], 'ranks (0 = missing)': o['ranks'], 'palette': o['palette'],
                      'input': [None if r == 0 else PALETTES[o['palette']](r, max(o['ranks'])) for r in o['ranks']], 'error': o.get('error')})
   ctx.log('  %d weak orders with missing entries (n <= %d) -> %d warps; verdicts %s' % (len(orders), max_n, len(obs), {('%s:%s' % k): v for k, v in counts.items() if k[1] != 'ok'}))
